@@ -238,6 +238,44 @@ theorem C04_chain_copy_slack_copy (k : Kind) (zero : Cell → Bool) (A M N T : L
   rw [tracePost_skip k zero N _ _ hN, hct, tracePost_copy_head k zero s2 d2 _ j2 hj2 hn2,
       tracePost_none_written k zero T _ hT, tracePost_none_written k zero _ vs hvs]
 
+/-- **Presolve image, plain chain** (lists in REVERSED registration order, as `tracePre` takes them): the solver row reached
+    through two copy entries receives, in every kind (warm-start dual, basis status, lazy flag, generic suffix), exactly the
+    value given for the original constraint. -/
+theorem C04_prechain_copy_copy (k : Kind) (zero : Cell → Bool) (A M T : List Entry) (s1 d1 s2 d2 : Rng) (j1 j2 : Nat)
+    (hj1 : j1 < s1.len) (hj2 : j2 < s2.len) (hn1 : s1.node ≠ d1.node) (hn2 : s2.node ≠ d2.node)
+    (hmid : (s2.node, s2.beg + j2) = (d1.node, d1.beg + j1))
+    (hT : ∀ e ∈ T, e.preWrites (d2.node, d2.beg + j2) = false)
+    (hM : ∀ e ∈ M, e.preWrites (d1.node, d1.beg + j1) = false)
+    (hA : ∀ e ∈ A, e.preWrites (s1.node, s1.beg + j1) = false) :
+    tracePre k zero (T ++ .copy s2 d2 :: (M ++ .copy s1 d1 :: A)) (d2.node, d2.beg + j2)
+      = some (.init (s1.node, s1.beg + j1)) := by
+  rw [tracePre_skip k zero T _ _ hT, tracePre_copy_head k zero s2 d2 _ j2 hj2 hn2, hmid,
+      tracePre_skip k zero M _ _ hM, tracePre_copy_head k zero s1 d1 _ j1 hj1 hn1,
+      tracePre_none_written k zero A _ hA]
+
+/-- **Presolve image, slack chain**: the equality row `ct` of an equality-plus-slack pair receives the original constraint's
+    value for warm-start duals, lazy flags and generic suffixes, and the status `equ` (5) for a basis; the slack variable
+    receives the reversed basis status (`r2sPreSlackOrigin`). -/
+theorem C04_prechain_slack (k : Kind) (zero : Cell → Bool) (A M N : List Entry) (s1 d1 : Rng) (j1 : Nat)
+    (cs ct vs : Cell) (sd : SlackData) (c : Cell) (hc : c = ct ∨ c = vs)
+    (hj1 : j1 < s1.len) (hn1 : s1.node ≠ d1.node) (hcs : cs = (d1.node, d1.beg + j1))
+    (hzero : zero c = true) (hdist : r2sDistinct cs ct vs = true)
+    (hN : ∀ e ∈ N, e.preWrites c = false)
+    (hfresh : ∀ e ∈ M ++ .copy s1 d1 :: A, e.preWrites c = false)
+    (hM : ∀ e ∈ M, e.preWrites cs = false)
+    (hA : ∀ e ∈ A, e.preWrites (s1.node, s1.beg + j1) = false) :
+    tracePre k zero (N ++ .r2s cs ct vs sd :: (M ++ .copy s1 d1 :: A)) c
+      = (if c = ct then some (r2sPreTargetOrigin k (.init (s1.node, s1.beg + j1)))
+         else r2sPreSlackOrigin k (.init (s1.node, s1.beg + j1))) := by
+  rw [tracePre_skip k zero N _ _ hN]
+  have hw : (Entry.r2s cs ct vs sd).preWrites c = true := by
+    rcases hc with h | h <;> simp [Entry.preWrites, h]
+  have hall : (M ++ .copy s1 d1 :: A).all (fun e' => !e'.preWrites c) = true := by
+    simp only [List.all_eq_true, Bool.not_eq_eq_eq_not, Bool.not_true]; exact hfresh
+  simp only [tracePre, hw, if_true, hzero, hdist, hall, Bool.and_self]
+  rw [tracePre_skip k zero M _ _ hM, hcs, tracePre_copy_head k zero s1 d1 _ j1 hj1 hn1,
+      tracePre_none_written k zero A _ hA]
+
 /-- Warm start: the slack variable of a converted range constraint receives the lower slack of the constraint the
     entry carries, at the presolved point (then `clampVec` moves it into `[0, ub-lb]`).  Which constraint the REAL
     converter puts there is checked per run (`rangecon.used` vs `rangecon.own`): for quadratic range constraints
